@@ -68,6 +68,7 @@ class Sandbox:
             os.makedirs(d)
         self.clockfile = os.path.join(self.outside, "clock")
         self.ngroups = 0
+        self.now_ns = 0          # simulated time at the end of the last group (stamps files written from outside)
 
     def reset(self):
         shutil.rmtree(self.R, ignore_errors=True)
@@ -75,6 +76,7 @@ class Sandbox:
         for d in (self.cache, self.proj, self.outside):
             os.makedirs(d)
         self.ngroups = 0
+        self.now_ns = 0
 
     def destroy(self):
         shutil.rmtree(self.top, ignore_errors=True)
@@ -84,6 +86,8 @@ class Sandbox:
         os.makedirs(os.path.dirname(p), exist_ok=True)
         with open(p, "w") as f:
             f.write(text)
+        t = 1700000000 * 10 ** 9 + self.now_ns
+        os.utime(p, ns=(t, t))
 
     def tree_state(self):
         """Normalised listing of the simulated tree: (relative path, size) with temp-name
@@ -175,6 +179,7 @@ def run_group(sb, seed, vprocs, strategy=("rtb", 10, 8), faults=(), switches=Non
         raise EngineError("procsim failed rc=%s: %s" % (r.returncode, r.stderr[-2000:]))
     res = GroupResult()
     res.scenario = lines
+
     with open(prefix + ".log") as f:
         res.log = f.read().splitlines()
     res.vp = []
@@ -190,6 +195,7 @@ def run_group(sb, seed, vprocs, strategy=("rtb", 10, 8), faults=(), switches=Non
             elif t[0] == "vproc":
                 d = dict(zip(t[2::2], (int(x) for x in t[3::2])))
                 res.vp.append(d)
+    sb.now_ns = clock0 + res.gsteps * tick
     res.outputs = []
     res.stderr = []
     for i in range(len(vprocs)):
